@@ -117,7 +117,7 @@ def cli(argv=sys.argv, mode='output'):
              Alternatively you can feed a formula to <stdin>
              with piping or using '-i' command line argument."""
 
-    with msg_prefix("c INPUT: "):
+    with msg_prefix("INPUT: "):
         interactive_msg(msg, filltext=70)
     F = CNF.from_file(args.input)
 
@@ -142,7 +142,8 @@ def main():
 
     try:
 
-        cli(sys.argv)
+        with msg_prefix('c '):
+            cli(sys.argv)
 
     except ValueError as e:
         error_msg("DIMACS ERROR: " + str(e))
